@@ -162,7 +162,9 @@ def job(spec):
 
 def job_main(spec):
     """transformer.main() on a fake file system: the file written must equal what the library call returns for the input file's content"""
-    mode = spec
+    full_mode = spec
+    mode = full_mode.split("-")[0]
+    inplace = full_mode.endswith("-inplace")       # the output path is the input path (the tool is run in place)
     sys.path.insert(0, "/verif")
     import io
     import rnapolis.transformer as TR
@@ -175,6 +177,10 @@ def job_main(spec):
             super().__init__(files.get(path, "") if "r" in mode_ else "")
             self.path, self.mode_ = path, mode_
 
+        def read(self, *a):
+            # the content is what the file holds when it is read, not when it was opened
+            return files.get(self.path, "") if "r" in self.mode_ else super().read(*a)
+
         def write(self, s):
             if not isinstance(s, str):
                 raise TypeError(f"write() argument must be str, not {type(s).__name__}")
@@ -183,11 +189,14 @@ def job_main(spec):
         def __exit__(self, *a):
             if "w" in self.mode_:
                 written[self.path] = self.getvalue()
+                files[self.path] = self.getvalue()
             return super().__exit__(*a)
 
     def fake_open(path, mode_="r", *a, **k):
         if "r" in mode_ and path not in files:
             raise FileNotFoundError(path)
+        if "w" in mode_:
+            files[path] = ""          # opening for writing truncates the file at once
         return FF(path, mode_)
 
     def lib_copy(content, category, frm, to):
@@ -200,7 +209,7 @@ def job_main(spec):
 
     class Args:
         input = "/fake/in.cif"
-        output = "/fake/out.cif"
+        output = "/fake/in.cif" if inplace else "/fake/out.cif"
         category = "atom_site"
         copy_from = "label_asym_id" if mode == "copy" else None
         copy_to = "auth_asym_id" if mode == "copy" else None
@@ -222,7 +231,7 @@ def job_main(spec):
     ns = TR.__dict__
     saved = {k: ns.get(k) for k in ("open", "copy_from_to", "replace_value")}
     saved_ap = TR.argparse.ArgumentParser
-    res = {"name": f"main:{mode}", "paths": 1, "verdicts": [], "reach": 1, "queries": 0, "solver_s": 0.0, "unknown": 0, "wall_s": 0.0, "present": True}
+    res = {"name": f"main:{full_mode}", "paths": 1, "verdicts": [], "reach": 1, "queries": 0, "solver_s": 0.0, "unknown": 0, "wall_s": 0.0, "present": True}
     try:
         ns["open"] = fake_open
         ns["copy_from_to"] = lib_copy
@@ -241,12 +250,12 @@ def job_main(spec):
                 ns[k] = v
         TR.argparse.ArgumentParser = saved_ap
     want = "LIB(" + DOC_TEXT + ")"
-    got = written.get("/fake/out.cif")
+    got = written.get(Args.output)
     if err is not None:
-        res["verdicts"].append({"ob": f"main() raised {err}", "v": "sat", "key": f"transformer.main:{mode}:exception", "w": {"mode": mode}})
+        res["verdicts"].append({"ob": f"main() raised {err}", "v": "sat", "key": f"transformer.main:{mode}:exception", "w": {"mode": full_mode}})
     elif got != want:
         res["verdicts"].append({"ob": f"main() wrote {got!r}; the library result for the file's content is {want!r} (library was called with {calls})",
-                                "v": "sat", "key": f"transformer.main:{mode}:output", "w": {"mode": mode}})
+                                "v": "sat", "key": f"transformer.main:{mode}:output", "w": {"mode": full_mode}})
     else:
         res["verdicts"].append({"ob": "main() writes the library result for the file's content", "v": "unsat", "key": "-", "w": None})
     return res
@@ -255,9 +264,10 @@ def job_main(spec):
 REPLAY_MAIN = '''
 import tempfile, os, io, contextlib
 import rnapolis.transformer as TR
-mode = {mode!r}
-doc = open(os.path.join(os.environ["VERIF_REPO_SRC"], "..", "tests", "4gqj-assembly1.cif")).read()
-d = tempfile.mkdtemp(); inp = os.path.join(d, "in.cif"); outp = os.path.join(d, "out.cif")
+full_mode = {mode!r}
+mode = full_mode.split("-")[0]
+doc = open(os.path.join(os.environ.get("VERIF_REPO_SRC", "/repo/src"), "..", "tests", "4gqj-assembly1.cif")).read()
+d = tempfile.mkdtemp(); inp = os.path.join(d, "in.cif"); outp = inp if full_mode.endswith("-inplace") else os.path.join(d, "out.cif")
 open(inp, "w").write(doc)
 if mode == "copy":
     want = TR.copy_from_to(doc, "atom_site", "label_asym_id", "auth_asym_id")
@@ -353,7 +363,7 @@ def run(rep, tier):
         specs.append(("lib", ("copy", "atom_site", "id", "new_item", 4)))
     specs += [("lib", ("copy", "atom_site", "label_asym_id", "auth_asym_id", n, True)), ("lib", ("replace", "atom_site", "auth_asym_id", None, n, True)),
               ("lib", ("copy", "atom_site", "label_asym_id", "new_item", n, True))]
-    specs += [("main", "copy"), ("main", "replace")]
+    specs += [("main", "copy"), ("main", "replace"), ("main", "copy-inplace"), ("main", "replace-inplace")]
     results = pmap(_dispatch, specs)
     for (kind, sp), r in zip(specs, results):
         if isinstance(r, Crashed):
